@@ -20,6 +20,17 @@ def scenarios(rnd, tier):
             out.append(c03.gen_line(rnd, k, full=True))
     for _ in range(n):
         out.append(c05.random_history(rnd))
+    # every history of up to two operations over the C05 alphabet, a sample of length three, and histories that
+    # drain the list completely before the release (an emptied list must not be released twice or kept)
+    import itertools
+    alpha = c05.alphabet()
+    for k in (1, 2):
+        out += ["tg " + ",".join(h) for h in itertools.product(alpha, repeat=k)]
+    out += ["tg " + ",".join(rnd.choice(alpha) for _ in range(3)) for _ in range(n * 20)]
+    for _ in range(n):
+        h = c05.random_history(rnd)
+        nums = sorted({op.split(":")[1] for op in h[3:].split(",") if op[0] in "ak" and ":" in op} | {"0", "3"})
+        out.append(h + "," + ",".join("r:%s" % x for x in nums for _ in range(rnd.choice([1, 3, 8]))))
     crafted = c04.crafted(rnd, n // 8)
     out += crafted
     for l in crafted[: n]:
